@@ -30,7 +30,9 @@ use crate::common::*;
 /// per-case time budget of the "no hang" clause (inputs are ≤ 64 KiB)
 const BUDGET: Duration = Duration::from_secs(2);
 /// the watchdog declares a true hang when one case makes no progress for this long
-const STUCK: Duration = Duration::from_secs(60);
+/// (quick / thorough); the slowest legitimate case (64 KiB, maximal pointer chains) takes < 1 s
+const STUCK_QUICK: Duration = Duration::from_secs(10);
+const STUCK_THOROUGH: Duration = Duration::from_secs(30);
 
 /// record types whose RDATA codec has no Lean model (must equal `Wire.unmodelled`); empty since
 /// stage 3c — kept so that a codec added to hickory can be run implementation-only first
@@ -131,11 +133,15 @@ fn show_rdata(d: &RData) -> String {
             format!("NSEC:{}:{}", name_tok(n.next_domain_name()), show_types(n.type_bit_maps()))
         }
         RData::DNSSEC(DNSSECRData::NSEC3(n)) => format!(
-            "NSEC3:{}:{}:{}:{}:{}",
+            "NSEC3:{}:{}:{}:{}:{}:{}",
             b(n.opt_out()),
             n.iterations(),
             hex(n.salt()),
             hex(n.next_hashed_owner_name()),
+            match n.next_hashed_owner_name_base32() {
+                Some(l) => hex(l.as_bytes()),
+                None => "!".into(),
+            },
             show_types(n.type_bit_maps())
         ),
         RData::DNSSEC(DNSSECRData::NSEC3PARAM(n)) => {
@@ -689,7 +695,7 @@ fn err_kind(e: &hickory_proto::serialize::binary::DecodeError) -> String {
 }
 
 fn exec(line: &str, rec: &mut Recorder, w: &Watch) {
-    *w.current.lock().unwrap() = line.chars().take(100_000).collect();
+    *w.current.lock().unwrap() = line.to_string();
     let t: Vec<&str> = line.split_whitespace().collect();
     if t.is_empty() {
         return;
@@ -1311,8 +1317,728 @@ fn big_cases(thorough: bool) -> Vec<String> {
     v
 }
 
+
+// ---------------------------------------------------------------- family: pointer graphs
+
+fn ptr2(target: usize) -> [u8; 2] {
+    (0xC000u16 | (target as u16 & 0x3FFF)).to_be_bytes()
+}
+
+/// A region of labels / roots / 2-octet pointers that target EACH OTHER in any direction
+/// (self-loops, 2- and 3-cycles, chains into cycles, forward pointers, pointers into the middle of
+/// an item).  Returns the bytes (to be placed at absolute offset `base`) and the item offsets.
+fn pointer_region(r: &mut Rng, base: usize) -> (Vec<u8>, Vec<usize>) {
+    #[derive(Clone, Copy)]
+    enum Item {
+        Ptr,
+        Label(usize),
+        Root,
+    }
+    let n = r.range(1, 6) as usize;
+    let items: Vec<Item> = (0..n)
+        .map(|_| match r.below(8) {
+            0 => Item::Root,
+            1 | 2 => Item::Label(r.range(1, 3) as usize),
+            _ => Item::Ptr,
+        })
+        .collect();
+    let mut offs = vec![];
+    let mut at = base;
+    for it in &items {
+        offs.push(at);
+        at += match it {
+            Item::Ptr => 2,
+            Item::Label(k) => 1 + k,
+            Item::Root => 1,
+        };
+    }
+    let mut v = vec![];
+    for (i, it) in items.iter().enumerate() {
+        match it {
+            Item::Ptr => {
+                let tgt = match r.below(10) {
+                    0 | 1 => offs[i],                                  // self loop
+                    2 => offs[(i + 1) % n],                            // next (forward or wrap: cycle)
+                    3 => offs[(i + n - 1) % n],                        // previous
+                    4 => offs[i] + 1,                                  // its own second octet
+                    5 => r.below(base as u64 + 1) as usize,            // anything before the region (header)
+                    _ => offs[r.below(n as u64) as usize],             // any item
+                };
+                v.extend(ptr2(tgt));
+            }
+            Item::Label(k) => {
+                v.push(*k as u8);
+                v.extend(std::iter::repeat(b'a' + (i as u8 % 26)).take(*k));
+            }
+            Item::Root => v.push(0),
+        }
+    }
+    (v, offs)
+}
+
+/// a name that starts AFTER the region and enters it through a pointer (optionally after labels)
+fn entry_name(r: &mut Rng, targets: &[usize]) -> Vec<u8> {
+    let mut v = vec![];
+    for _ in 0..r.below(3) {
+        let k = r.range(1, 4) as usize;
+        v.push(k as u8);
+        v.extend(std::iter::repeat(b'x').take(k));
+    }
+    v.extend(ptr2(*r.pick(targets)));
+    v
+}
+
+/// header octets chosen so that they read as pointers / labels / roots when a name points into them
+fn tricky_header(r: &mut Rng, qd: u16, an: u16, ns: u16, ar: u16) -> Vec<u8> {
+    let id: [u8; 2] = *r.pick(&[[0xC0, 0x00], [0xC0, 0x02], [0xC0, 0x04], [0xC0, 0x0C], [0xC0, 0x01], [0x01, b'a'], [0x00, 0xC0], [0xC0, 0x0A], [0x3F, 0x3F]]);
+    let fl: [u8; 2] = *r.pick(&[[0x01, 0x00], [0xC0, 0x00], [0xC0, 0x02], [0x81, 0x80], [0x00, 0x00], [0x00, 0xC0], [0xC0, 0x0C], [0x28, 0x00]]);
+    let mut h = vec![id[0], id[1], fl[0], fl[1]];
+    for c in [qd, an, ns, ar] {
+        h.extend(c.to_be_bytes());
+    }
+    h
+}
+
+fn pointer_graph_cases(r: &mut Rng, n: usize) -> Vec<String> {
+    let mut v = vec![];
+    for i in 0..n {
+        match i % 5 {
+            0 => {
+                // name: region at 0, the decoded name after it; also start inside the region at offsets >= 2
+                let (reg, offs) = pointer_region(r, 0);
+                let mut buf = reg;
+                let start = buf.len();
+                buf.extend(entry_name(r, &offs));
+                v.push(format!("name {} {start}", hex(&buf)));
+                if let Some(o) = offs.iter().find(|o| **o >= 2) {
+                    v.push(format!("name {} {o}", hex(&buf)));
+                }
+            }
+            1 => {
+                // record: owner enters the region, NS rdata enters it too
+                let (reg, offs) = pointer_region(r, 0);
+                let mut buf = reg;
+                let start = buf.len();
+                buf.extend(entry_name(r, &offs));
+                let rd = entry_name(r, &offs);
+                buf.extend([0, 2, 0, 1, 0, 0, 0, 60]);
+                buf.extend((rd.len() as u16).to_be_bytes());
+                buf.extend(rd);
+                v.push(format!("record {} {start}", hex(&buf)));
+            }
+            2 | 3 => {
+                // msg / req: QNAME points into the header; answers point at the question / header / each other
+                let an = if i % 5 == 2 { r.below(3) as u16 } else { 0 };
+                let ar = r.below(2) as u16;
+                let mut buf = tricky_header(r, 1, an, 0, ar);
+                let hdr: Vec<usize> = (0..=12).collect();
+                buf.extend(entry_name(r, &hdr));
+                buf.extend([0, 1, 0, 1]);
+                for _ in 0..an + ar {
+                    let mut tg: Vec<usize> = (0..buf.len() + 2).collect();
+                    tg.push(buf.len());
+                    buf.extend(entry_name(r, &tg));
+                    let rd = entry_name(r, &tg);
+                    buf.extend([0, 2, 0, 1, 0, 0, 0, 60]);
+                    buf.extend((rd.len() as u16).to_be_bytes());
+                    buf.extend(rd);
+                }
+                v.push(format!("{} {}", if i % 5 == 2 { "msg" } else { "req" }, hex(&buf)));
+            }
+            _ => {
+                // msg: a pointer region inside the RDATA of an unknown-type answer, later owners enter it
+                let mut buf = tricky_header(r, 1, 3, 0, 0);
+                buf.extend([1, b'q', 0, 0, 1, 0, 1]);
+                buf.extend([0xC0, 12, 0xFF, 0x01, 0, 1, 0, 0, 0, 0]);
+                let base = buf.len() + 2;
+                let (reg, offs) = pointer_region(r, base);
+                buf.extend((reg.len() as u16).to_be_bytes());
+                buf.extend(reg);
+                for _ in 0..2 {
+                    buf.extend(entry_name(r, &offs));
+                    let rd = entry_name(r, &offs);
+                    buf.extend([0, 5, 0, 1, 0, 0, 0, 60]);
+                    buf.extend((rd.len() as u16).to_be_bytes());
+                    buf.extend(rd);
+                }
+                v.push(format!("{} {}", if r.chance(1, 4) { "req" } else { "msg" }, hex(&buf)));
+            }
+        }
+    }
+    v
+}
+
+// ---------------------------------------------------------------- family: extreme but well-formed RDATA
+// Written from the wire formats (RFC 1035, 2782, 2845, 3403, 4034, 4255, 4398, 5155, 6698, 6891, 7477,
+// 7929, 8659, 9460), NOT from the repo's constructors: every length-prefixed field takes boundary values
+// with the announced octets present, names go up to 255 octets, RDLENGTH fits exactly.
+
+const LEN8: &[usize] = &[0, 1, 2, 7, 8, 15, 16, 20, 31, 32, 33, 39, 40, 41, 63, 64, 65, 127, 128, 129, 200, 254, 255];
+
+fn len8(r: &mut Rng) -> usize {
+    *r.pick(LEN8)
+}
+
+fn len16(r: &mut Rng) -> usize {
+    match r.below(20) {
+        0 => *r.pick(&[16383usize, 16384, 32767, 32768, 60000]),
+        1 | 2 => *r.pick(&[511usize, 512, 1024, 4095, 4096]),
+        _ => *r.pick(&[0usize, 1, 2, 3, 19, 20, 32, 48, 64, 255, 256, 257]),
+    }
+}
+
+fn xcstr(r: &mut Rng) -> Vec<u8> {
+    let n = len8(r);
+    let mut v = vec![n as u8];
+    v.extend(r.bytes(n));
+    v
+}
+
+fn alnum(r: &mut Rng, n: usize) -> Vec<u8> {
+    (0..n).map(|_| *r.pick(b"abcxyzABCXYZ0189")).collect()
+}
+
+fn labels_wire(lens: &[usize], fill: u8) -> Vec<u8> {
+    let mut v = vec![];
+    for (i, l) in lens.iter().enumerate() {
+        v.push(*l as u8);
+        v.extend(std::iter::repeat(fill.wrapping_add(i as u8 % 20)).take(*l));
+    }
+    v.push(0);
+    v
+}
+
+/// uncompressed names at the limits: root, one octet, a 63-octet label, exactly 255 / 254 octets,
+/// 127 one-octet labels
+fn xname(r: &mut Rng) -> Vec<u8> {
+    match r.below(8) {
+        0 => vec![0],
+        1 => labels_wire(&[1], b'a'),
+        2 => labels_wire(&[63], b'a'),
+        3 => labels_wire(&[63, 63, 63, 61], b'a'),
+        4 => labels_wire(&[63, 63, 63, 60], b'a'),
+        5 => labels_wire(&[1; 127], b'a'),
+        6 => labels_wire(&[62, 1, 63, 2], b'A'),
+        _ => wire_name(&gen_name(r)),
+    }
+}
+
+/// total wire length `total` (1..=255) out of maximal labels
+fn name_of_len(total: usize) -> Vec<u8> {
+    let mut left = total.saturating_sub(1);
+    let mut lens = vec![];
+    while left > 0 {
+        let l = (left - 1).min(63);
+        if l == 0 {
+            // one octet left cannot hold a label: shorten the previous label by one and add a 1-octet label
+            if let Some(last) = lens.last_mut() {
+                if *last > 1 {
+                    *last -= 1;
+                    lens.push(1);
+                }
+            }
+            break;
+        }
+        lens.push(l);
+        left -= l + 1;
+    }
+    labels_wire(&lens, b'a')
+}
+
+fn window(w: u8, len: usize, r: &mut Rng) -> Vec<u8> {
+    let mut v = vec![w, len as u8];
+    let mut bytes = r.bytes(len);
+    if w == 0 && len > 0 {
+        bytes[0] &= 0x7F; // type 0 never appears
+    }
+    if len > 0 && bytes[len - 1] == 0 {
+        bytes[len - 1] = 1;
+    }
+    v.extend(bytes);
+    v
+}
+
+fn xbitmaps(r: &mut Rng) -> Vec<u8> {
+    match r.below(8) {
+        0 => vec![],
+        1 => window(r.byte(), 32, r),
+        2 => window(r.byte(), 1, r),
+        3 => {
+            // every window, full length
+            let mut v = vec![];
+            for w in 0..=255u8 {
+                v.extend(window(w, 32, r));
+            }
+            v
+        }
+        4 => window(255, r.range(1, 32) as usize, r),
+        _ => {
+            let mut v = vec![];
+            let mut w = r.below(4) as u16;
+            while w < 256 && v.len() < 600 {
+                v.extend(window(w as u8, r.range(1, 32) as usize, r));
+                w += r.range(1, 90) as u16;
+            }
+            v
+        }
+    }
+}
+
+fn extreme_rdata(r: &mut Rng, t: u16) -> Vec<u8> {
+    let mut v = vec![];
+    match t {
+        1 => v.extend(r.bytes(4)),
+        28 => v.extend(r.bytes(16)),
+        2 | 5 | 12 | 65305 => v.extend(xname(r)),
+        15 => {
+            v.extend(r.bytes(2));
+            v.extend(xname(r));
+        }
+        6 => {
+            v.extend(xname(r));
+            v.extend(xname(r));
+            v.extend(*r.pick(&[[0u8; 20], [0xFF; 20], [0x80; 20], [0x7F; 20]]));
+        }
+        33 => {
+            v.extend(r.bytes(6));
+            v.extend(xname(r));
+        }
+        16 => {
+            let k = *r.pick(&[0usize, 1, 1, 2, 3, 16, 200]);
+            for _ in 0..k {
+                let s = if k >= 200 { let mut s = vec![255u8]; s.extend(vec![b't'; 255]); s } else { xcstr(r) };
+                v.extend(s);
+            }
+        }
+        13 => {
+            v.extend(xcstr(r));
+            v.extend(xcstr(r));
+        }
+        41 => {
+            for _ in 0..r.below(4) {
+                match r.below(6) {
+                    0 => {
+                        // DAU: up to 255 algorithm octets
+                        let n = len8(r);
+                        v.extend([0, 5]);
+                        v.extend((n as u16).to_be_bytes());
+                        v.extend((0..n).map(|i| [5u8, 7, 8, 10, 13, 14, 15, 1, 3, 200][i % 10]));
+                    }
+                    1 => {
+                        // client subnet, every prefix length with exactly the octets it needs
+                        let (fam, max) = if r.chance(1, 2) { (1u8, 32u64) } else { (2, 128) };
+                        let sp = r.below(max + 1) as usize;
+                        let n = (sp + 7) / 8;
+                        v.extend([0, 8]);
+                        v.extend((4 + n as u16).to_be_bytes());
+                        v.extend([0, fam, sp as u8, r.below(max + 1) as u8]);
+                        v.extend(r.bytes(n));
+                    }
+                    2 => {
+                        let n = len16(r).min(20000);
+                        v.extend([0, 3]);
+                        v.extend((n as u16).to_be_bytes());
+                        v.extend(r.bytes(n));
+                    }
+                    _ => {
+                        let n = len16(r).min(20000);
+                        v.extend((*r.pick(&[10u16, 12, 0, 4, 14, 65001, 65535])).to_be_bytes());
+                        v.extend((n as u16).to_be_bytes());
+                        v.extend(r.bytes(n));
+                    }
+                }
+            }
+        }
+        250 => {
+            let alg = match r.below(5) {
+                0 => labels_wire(&[11], b'h'),
+                1 => wire_name(&Name::from_ascii("hmac-sha256.").unwrap()),
+                2 => wire_name(&Name::from_ascii("HMAC-MD5.SIG-ALG.REG.INT.").unwrap()),
+                3 => labels_wire(&[63, 63, 63, 61], b'a'),
+                _ => vec![0],
+            };
+            v.extend(alg);
+            v.extend(*r.pick(&[[0u8; 6], [0xFF; 6], [0, 0, 0x65, 0, 0, 0]]));
+            v.extend(r.bytes(2));
+            let m = len16(r).min(30000);
+            v.extend((m as u16).to_be_bytes());
+            v.extend(r.bytes(m));
+            v.extend(r.bytes(2));
+            v.extend((*r.pick(&[0u16, 16, 17, 18, 22, 65535])).to_be_bytes());
+            let o = len16(r).min(30000);
+            v.extend((o as u16).to_be_bytes());
+            v.extend(r.bytes(o));
+        }
+        43 | 59 => {
+            v.extend(r.bytes(2));
+            v.push(*r.pick(&[0u8, 5, 8, 13, 15, 255]));
+            v.push(*r.pick(&[0u8, 1, 2, 4, 255]));
+            let n = len16(r);
+            v.extend(r.bytes(n));
+        }
+        48 | 60 => {
+            v.extend(*r.pick(&[[1u8, 1], [1, 0], [0, 0], [0xFF, 0xFF], [0, 0x80]]));
+            v.push(3);
+            v.push(*r.pick(&[0u8, 5, 8, 13, 15, 255]));
+            let n = len16(r);
+            v.extend(r.bytes(n));
+        }
+        25 => {
+            v.extend(*r.pick(&[[0u8, 0], [0xC3, 0x0F], [0x01, 0x00], [0x80, 0x01], [0x42, 0x08]]));
+            v.push(*r.pick(&[0u8, 1, 3, 4, 255, 77]));
+            v.push(*r.pick(&[0u8, 5, 8, 255]));
+            let n = len16(r);
+            v.extend(r.bytes(n));
+        }
+        46 | 24 => {
+            v.extend((*r.pick(&[1u16, 0, 255, 65535, 46])).to_be_bytes());
+            v.push(r.byte());
+            v.push(*r.pick(&[0u8, 1, 127, 255]));
+            v.extend(*r.pick(&[[0u8; 12], [0xFF; 12], [0x80; 12]]));
+            v.extend(r.bytes(2));
+            v.extend(xname(r));
+            let n = len16(r);
+            v.extend(r.bytes(n));
+        }
+        47 => {
+            v.extend(xname(r));
+            v.extend(xbitmaps(r));
+        }
+        50 => {
+            v.push(1);
+            v.push(r.below(2) as u8);
+            v.extend(*r.pick(&[[0u8, 0], [0xFF, 0xFF], [0, 10]]));
+            v.extend(xcstr(r)); // salt: 0..255 octets, present
+            v.extend(xcstr(r)); // next hashed owner name: 0..255 octets, present
+            v.extend(xbitmaps(r));
+        }
+        51 => {
+            v.push(1);
+            v.push(r.below(2) as u8);
+            v.extend(r.bytes(2));
+            v.extend(xcstr(r));
+        }
+        257 => {
+            v.push(*r.pick(&[0u8, 128, 255, 1]));
+            let n = *r.pick(&[1usize, 2, 5, 14, 15]);
+            v.push(n as u8);
+            v.extend(alnum(r, n));
+            let k = len16(r);
+            v.extend(r.bytes(k));
+        }
+        64 | 65 => {
+            v.extend((*r.pick(&[0u16, 1, 65535])).to_be_bytes());
+            v.extend(xname(r));
+            let mut keys: Vec<u16> = vec![0, 1, 2, 3, 4, 5, 6, 7, 100, 65279, 65280, 65534, 65535];
+            keys.retain(|_| r.chance(1, 3));
+            let present: Vec<u16> = keys.clone();
+            for k in keys {
+                let val: Vec<u8> = match k {
+                    0 => {
+                        let ks: Vec<u16> = present.iter().copied().filter(|x| *x != 0).collect();
+                        let ks = if ks.is_empty() { vec![1u16] } else { ks };
+                        ks.iter().flat_map(|x| x.to_be_bytes()).collect()
+                    }
+                    1 => {
+                        let mut a = vec![];
+                        for _ in 0..r.range(1, 3) {
+                            let n = len8(r);
+                            a.push(n as u8);
+                            a.extend(match r.below(4) {
+                                0 => "é€😀".as_bytes().iter().copied().cycle().take(n / 9 * 9).chain(std::iter::repeat(b'h').take(n % 9)).collect::<Vec<u8>>(),
+                                _ => vec![b'h'; n],
+                            });
+                        }
+                        a
+                    }
+                    2 => vec![],
+                    3 => r.bytes(2),
+                    4 => {
+                        let n = *r.pick(&[0usize, 1, 2, 63, 64, 255]);
+                        r.bytes(4 * n)
+                    }
+                    6 => {
+                        let n = *r.pick(&[0usize, 1, 2, 16, 64]);
+                        r.bytes(16 * n)
+                    }
+                    _ => {
+                        let n = len16(r).min(8000);
+                        r.bytes(n)
+                    }
+                };
+                v.extend(k.to_be_bytes());
+                v.extend((val.len() as u16).to_be_bytes());
+                v.extend(val);
+            }
+        }
+        35 => {
+            v.extend(r.bytes(4));
+            let n = len8(r);
+            v.push(n as u8);
+            v.extend(alnum(r, n));
+            v.extend(xcstr(r));
+            v.extend(xcstr(r));
+            v.extend(xname(r));
+        }
+        37 => {
+            v.extend((*r.pick(&[0u16, 1, 8, 9, 252, 253, 254, 255, 256, 65279, 65280, 65534, 65535])).to_be_bytes());
+            v.extend(r.bytes(2));
+            v.push(*r.pick(&[0u8, 8, 17, 18, 23, 122, 123, 252, 253, 254, 255]));
+            let n = len16(r).max(1);
+            v.extend(r.bytes(n));
+        }
+        62 => {
+            v.extend(r.bytes(4));
+            v.extend([*r.pick(&[0u8, 1, 0xFF]), r.below(4) as u8]);
+            v.extend(xbitmaps(r));
+        }
+        52 | 53 => {
+            v.extend([*r.pick(&[0u8, 3, 4, 254, 255]), *r.pick(&[0u8, 1, 2, 254, 255]), *r.pick(&[0u8, 1, 2, 3, 254, 255])]);
+            let n = len16(r);
+            v.extend(r.bytes(n));
+        }
+        44 => {
+            v.extend([*r.pick(&[0u8, 1, 4, 6, 7, 255]), *r.pick(&[0u8, 1, 2, 3, 255])]);
+            let n = len16(r);
+            v.extend(r.bytes(n));
+        }
+        _ => {
+            // NULL, OPENPGPKEY, unknown types: any octets
+            let n = len16(r);
+            v.extend(r.bytes(n));
+        }
+    }
+    v
+}
+
+const WIRE_TYPES: &[u16] = &[
+    1, 28, 2, 5, 12, 65305, 15, 6, 33, 16, 13, 10, 41, 250, 43, 59, 48, 60, 25, 46, 24, 47, 50, 51, 257, 64, 65, 35, 37, 62,
+    52, 53, 44, 61, 99, 65280,
+];
+
+/// the RDATA as `rdata`, as `record` (RDLENGTH fitting exactly) and inside a message
+fn embed(t: u16, rd: &[u8], fam: &str, out: &mut Vec<String>, with_msg: bool) {
+    if rd.len() > 65000 {
+        return;
+    }
+    // the list-based Lean model is quadratic in the buffer size: large inputs run implementation-only
+    let x = if rd.len() > 3000 { "!" } else { "" };
+    out.push(format!("rdata{x} {t} {} 0 #{fam}", hex(rd)));
+    let (owner, class): (&[u8], u16) = match t {
+        41 => (&[0], 4096),
+        250 | 24 => (&[3, b'k', b'e', b'y', 0], 255),
+        _ => (&[1, b'o', 0], 1),
+    };
+    if rd.is_empty() {
+        return; // RDLENGTH 0 is the Update0 form, covered elsewhere
+    }
+    let mut rec = owner.to_vec();
+    rec.extend(t.to_be_bytes());
+    rec.extend(class.to_be_bytes());
+    rec.extend([0, 0, 0, 60]);
+    rec.extend((rd.len() as u16).to_be_bytes());
+    rec.extend(rd);
+    out.push(format!("record{x} {} 0 #{fam}", hex(&rec)));
+    if with_msg && rec.len() + 20 <= 65535 {
+        let additional = matches!(t, 41 | 250 | 24);
+        let mut m = vec![0x12, 0x34, 0x84, 0x00, 0, 1, 0, if additional { 0 } else { 1 }, 0, 0, 0, if additional { 1 } else { 0 }];
+        m.extend([1, b'q', 0]);
+        m.extend(t.to_be_bytes());
+        m.extend([0, 1]);
+        m.extend(rec);
+        out.push(format!("msg{x} {} #{fam}", hex(&m)));
+    }
+}
+
+fn extreme_cases(r: &mut Rng, per_type: usize) -> Vec<String> {
+    let mut out = vec![];
+    for &t in WIRE_TYPES {
+        for k in 0..per_type {
+            let rd = extreme_rdata(r, t);
+            embed(t, &rd, "extreme", &mut out, k % 2 == 0);
+        }
+    }
+    out
+}
+
+/// thorough: every value of every one-octet length field (with the announced octets present),
+/// every window number x every window length of a type bitmap, every name length 1..=255,
+/// and 16-bit length fields from 0 to 300
+fn sweep_cases(r: &mut Rng) -> Vec<String> {
+    let mut out = vec![];
+    let f = "sweep";
+    let bm = [0u8, 1, 0x40];
+    for n in 0..=255usize {
+        // NSEC3 salt / hash, NSEC3PARAM salt
+        for (s, h) in [(4usize, n), (n, 20), (n, n)] {
+            let mut v = vec![1, 0, 0, 5, s as u8];
+            v.extend(r.bytes(s));
+            v.push(h as u8);
+            v.extend(r.bytes(h));
+            v.extend(bm);
+            embed(50, &v, f, &mut out, n % 16 == 0);
+        }
+        let mut v = vec![1, 0, 0, 5, n as u8];
+        v.extend(r.bytes(n));
+        embed(51, &v, f, &mut out, false);
+        // TXT / HINFO / NAPTR / CAA character strings
+        let mut s = vec![n as u8];
+        s.extend(vec![b's'; n]);
+        embed(16, &s, f, &mut out, n % 16 == 0);
+        let mut v = s.clone();
+        v.extend(&s);
+        embed(16, &v, f, &mut out, false);
+        embed(13, &v, f, &mut out, n % 16 == 0);
+        let mut v = vec![3, b'c', b'p', b'u'];
+        v.extend(&s);
+        embed(13, &v, f, &mut out, false);
+        for which in 0..3 {
+            let mut v = vec![0, 1, 0, 2];
+            for i in 0..3 {
+                if i == which {
+                    v.push(n as u8);
+                    v.extend(alnum(r, n));
+                } else {
+                    v.push(1);
+                    v.push(b'u');
+                }
+            }
+            v.extend([1, b'r', 0]);
+            embed(35, &v, f, &mut out, false);
+        }
+        let mut v = vec![0, n as u8];
+        v.extend(alnum(r, n));
+        v.extend(b"value");
+        embed(257, &v, f, &mut out, false);
+        // DAU option of n octets, SVCB alpn id of n octets, ipv4hint of n addresses
+        let mut v = vec![0, 5];
+        v.extend((n as u16).to_be_bytes());
+        v.extend(vec![8u8; n]);
+        embed(41, &v, f, &mut out, n % 16 == 0);
+        let mut v = vec![0, 1, 0, 0, 1];
+        v.extend((1 + n as u16).to_be_bytes());
+        v.push(n as u8);
+        v.extend(vec![b'h'; n]);
+        embed(64, &v, f, &mut out, n % 16 == 0);
+        let mut v = vec![0, 1, 0, 0, 4];
+        v.extend((4 * n as u16).to_be_bytes());
+        v.extend(r.bytes(4 * n));
+        embed(65, &v, f, &mut out, false);
+        // names of every length, as NS and inside MX / SOA / SRV / RRSIG / NSEC
+        if n >= 1 {
+            let nm = name_of_len(n);
+            embed(2, &nm, f, &mut out, n % 16 == 0 || n >= 250);
+            let mut v = vec![0, 10];
+            v.extend(&nm);
+            embed(15, &v, f, &mut out, false);
+            let mut v = nm.clone();
+            v.extend(&nm);
+            v.extend([0u8; 20]);
+            embed(6, &v, f, &mut out, n >= 250);
+            let mut v = vec![0, 1, 8, 2, 0, 0, 14, 16, 0, 0, 0, 2, 0, 0, 0, 1, 0xBE, 0xEF];
+            v.extend(&nm);
+            v.extend(b"sig");
+            embed(46, &v, f, &mut out, false);
+            let mut v = nm.clone();
+            v.extend(bm);
+            embed(47, &v, f, &mut out, false);
+        }
+    }
+    // client-subnet prefixes
+    for (fam, max) in [(1u8, 32usize), (2, 128)] {
+        for sp in 0..=max {
+            let n = (sp + 7) / 8;
+            let mut v = vec![0, 8];
+            v.extend((4 + n as u16).to_be_bytes());
+            v.extend([0, fam, sp as u8, 0]);
+            v.extend(r.bytes(n));
+            embed(41, &v, f, &mut out, false);
+        }
+    }
+    // type bitmaps: every window number x every length 1..=32 (NSEC), a subset for NSEC3 / CSYNC
+    for w in 0..=255u8 {
+        for len in 1..=32usize {
+            let mut v = vec![1, b'n', 0];
+            v.extend(window(w, len, r));
+            embed(47, &v, f, &mut out, false);
+            if w < 2 || w == 255 {
+                let mut v = vec![1, 0, 0, 1, 0, 20];
+                v.extend(r.bytes(20));
+                v.extend(window(w, len, r));
+                embed(50, &v, f, &mut out, false);
+                let mut v = vec![0, 0, 0, 1, 0, 3];
+                v.extend(window(w, len, r));
+                embed(62, &v, f, &mut out, false);
+            }
+        }
+    }
+    // 16-bit length fields and trailing blobs, 0..=300
+    for n in 0..=300usize {
+        let blob = r.bytes(n);
+        let mut v = vec![0, 10];
+        v.extend((n as u16).to_be_bytes());
+        v.extend(&blob);
+        embed(41, &v, f, &mut out, false);
+        for (t, head) in [
+            (43u16, vec![0u8, 1, 8, 2]),
+            (48, vec![1, 1, 3, 8]),
+            (25, vec![1, 0, 3, 8]),
+            (37, vec![0, 1, 0, 2, 8, b'c']),
+            (52, vec![3, 1, 1]),
+            (44, vec![1, 1]),
+            (61, vec![]),
+            (10, vec![]),
+            (257, vec![0, 5, b'i', b's', b's', b'u', b'e']),
+        ] {
+            let mut v = head;
+            v.extend(&blob);
+            embed(t, &v, f, &mut out, false);
+        }
+        // TSIG: MAC of n octets, other data of n octets
+        for (m, o) in [(n, 0usize), (0, n)] {
+            let mut v = vec![11];
+            v.extend(b"hmac-sha256");
+            v.push(0);
+            v.extend([0, 0, 0, 0, 0, 1, 1, 44]);
+            v.extend((m as u16).to_be_bytes());
+            v.extend(r.bytes(m));
+            v.extend([0x12, 0x34, 0, 0]);
+            v.extend((o as u16).to_be_bytes());
+            v.extend(r.bytes(o));
+            embed(250, &v, f, &mut out, n % 50 == 0);
+        }
+        // SVCB unknown key with n octets
+        let mut v = vec![0, 1, 0, 0x12, 0x34];
+        v.extend((n as u16).to_be_bytes());
+        v.extend(&blob);
+        embed(64, &v, f, &mut out, false);
+    }
+    out
+}
+
 fn generate(o: &Opts, rec: &mut Recorder, w: &Watch) {
     let mut r = Rng::new(o.seed);
+    // pointer graphs first: a pointer cycle that is followed is a hang, better found early
+    for l in pointer_graph_cases(&mut r, if o.thorough() { 60_000 } else { 1500 }) {
+        let op = l.split(' ').next().unwrap_or("?").to_string();
+        rec.stat(&format!("gen.family.pointer-graph.{op}"));
+        exec(&l, rec, w);
+    }
+    let mut fam = extreme_cases(&mut r, if o.thorough() { 400 } else { 24 });
+    if o.thorough() {
+        fam.extend(sweep_cases(&mut r));
+    }
+    for l in fam {
+        // "<case line> #<family>"
+        let (line, tag) = l.rsplit_once(" #").unwrap_or((&l, "?"));
+        let mut t = line.split(' ');
+        let op = t.next().unwrap_or("?").trim_end_matches('!');
+        rec.stat(&format!("gen.family.{tag}.{op}"));
+        if op == "rdata" {
+            rec.stat(&format!("gen.family.{tag}.type.{}", t.next().unwrap_or("?")));
+        }
+        exec(line, rec, w);
+    }
     for l in big_cases(o.thorough()) {
         exec(&l, rec, w);
     }
@@ -1430,10 +2156,15 @@ fn generate(o: &Opts, rec: &mut Recorder, w: &Watch) {
 }
 
 pub fn run(o: &Opts, rec: &mut Recorder) {
-    rec.rule = "valid messages of every RData variant built with the repo's own types (tier-1 types by constructor, the others by decoding hand-assembled well-formed seeds), then mutated (bit flips, truncation, count / RDLENGTH / type edits, pointer edits, inserts, deletes), random bytes, pieces of messages through Record::read / RData::read (every RecordType code) / Name::read at arbitrary offsets, and an adversarial corpus; a case is non-trivial when the decode succeeded and (msg) the message has records and compression pointers, (name) the name was reached through a pointer; distinct by case line".into();
+    rec.rule = "families: (1) valid messages of every RData variant built with the repo's own types, then mutated (bit flips, truncation, count / RDLENGTH / type / pointer edits, inserts, deletes); (2) pointer graphs: labels / roots / 2-octet pointers targeting each other in any direction (self-loops, 2- and 3-cycles, chains into cycles, pointers into header octets chosen to read as pointers or labels) with the decoded name starting after them, through name / record / msg / req; (3) extreme but well-formed RDATA of every type written from the wire formats, every length-prefixed field at its boundaries with the octets present, names up to 255 octets, RDLENGTH fitting exactly, as rdata / record / msg (thorough: exhaustive sweep of every one-octet length field, every bitmap window number x length, every name length, 16-bit lengths 0..300); (4) random bytes; (5) pieces of messages through Record::read / RData::read (every RecordType code) / Name::read at arbitrary offsets; (6) oversized adversarial inputs and the adversarial corpus; a case is non-trivial when the decode succeeded and (msg) the message has records and compression pointers, (name) the name was reached through a pointer; distinct by case line".into();
     let w = Arc::new(Watch { progress: AtomicU64::new(0), current: Mutex::new(String::new()) });
     let done = Arc::new(AtomicU64::new(0));
-    // watchdog: a case that makes no progress for STUCK is a true hang — report it and abort the run
+    // watchdog: a case that makes no progress for `stuck` is a true hang.  The stuck case is written to
+    // <out>/HANG.case and to stdout as `HANG: <case>`, then this process (only this process) exits 3;
+    // bin/check turns that into a VIOLATION whose replay is the hung case.
+    let stuck = if o.thorough() { STUCK_THOROUGH } else { STUCK_QUICK };
+    let out_dir = o.out.clone();
+    let _ = std::fs::remove_file(out_dir.join("HANG.case"));
     {
         let (w, done) = (w.clone(), done.clone());
         std::thread::spawn(move || {
@@ -1446,11 +2177,17 @@ pub fn run(o: &Opts, rec: &mut Recorder) {
                 let p = w.progress.load(Ordering::SeqCst);
                 if p != last.0 {
                     last = (p, Instant::now());
-                } else if last.1.elapsed() > STUCK {
-                    let cur = w.current.lock().map(|s| s.clone()).unwrap_or_default();
-                    let _ = std::fs::create_dir_all("run/c01");
-                    let _ = std::fs::write("run/c01/HANG.case", &cur);
-                    eprintln!("HANG: no progress for {STUCK:?} on case #{p}: {}", &cur[..cur.len().min(2000)]);
+                } else if last.1.elapsed() > stuck {
+                    let cur = match w.current.lock() {
+                        Ok(s) => s.clone(),
+                        Err(e) => e.into_inner().clone(),
+                    };
+                    let _ = std::fs::create_dir_all(&out_dir);
+                    let _ = std::fs::write(out_dir.join("HANG.case"), format!("{cur}\n"));
+                    println!("HANG: {cur}");
+                    eprintln!("HANG: no progress for {stuck:?} on case #{p} (written to {}/HANG.case)", out_dir.display());
+                    use std::io::Write as _;
+                    let _ = std::io::stdout().flush();
                     std::process::exit(3);
                 }
             }
